@@ -171,6 +171,9 @@ def tcp_streams(pkts):
             d = (p.src, p.sport, p.dst, p.dport)
             r = (p.dst, p.dport, p.src, p.sport)
             if p.flags & 0x02 and not p.flags & 0x10:
+                if st is not None:
+                    # the workloads never reuse a 4-tuple, so one exported conversation = one handshake; a second SYN restarts the sequence space inside it
+                    raise Malformed(f"second SYN (seq {p.seq}) inside a conversation that is already open")
                 st = {"stage": 1, "cli": d, "nxt": {d: (p.seq + 1) & 0xFFFFFFFF}}
                 out.setdefault(d, b"")
                 out.setdefault(r, b"")
